@@ -84,6 +84,7 @@ type Frame struct {
 }
 
 type loopInfo struct {
+	lockNames []string
 	ord    int
 	header *ssa.BasicBlock
 	blocks map[*ssa.BasicBlock]bool
@@ -127,6 +128,7 @@ type FnCtx struct {
 	boxes     map[string]Val
 	nopanic   bool
 	sweep     bool // zero-annotation sweep mode: loops without invariants allowed
+	lockOnly  bool // only the lock-discipline obligations of this function are claimed (C16 sweep)
 	funcName  string
 	lockDecl  map[string]*GuardDecl
 }
@@ -268,27 +270,27 @@ func (c *FnCtx) readLoc(st *State, l *Loc) Val {
 		return v
 	case LField:
 		p, t := pathString(l.Root, l.Path)
-		return buildVal(t, func(lf leaf) string {
+		return c.sliceFacts(buildVal(t, func(lf leaf) string {
 			a := c.heapGet(st, fieldArrayName(l.Root, p+lf.path), arrSort(lf.sort))
 			term := "(select " + a + " " + l.Base + ")"
 			c.leafFact(st, term, lf)
 			return term
-		})
+		}))
 	case LElem:
 		p, t := pathString(l.Root, l.Path)
-		return buildVal(t, func(lf leaf) string {
+		return c.sliceFacts(buildVal(t, func(lf leaf) string {
 			a := c.heapGet(st, elemArrayName(l.Root, p+lf.path), arr2Sort(lf.sort))
 			term := "(select (select " + a + " " + l.Base + ") " + l.Idx + ")"
 			c.leafFact(st, term, lf)
 			return term
-		})
+		}))
 	case LHeap:
-		return buildVal(l.Ty, func(lf leaf) string {
+		return c.sliceFacts(buildVal(l.Ty, func(lf leaf) string {
 			a := c.heapGet(st, cellArrayName(l.Ty, lf.path), arrSort(lf.sort))
 			term := "(select " + a + " " + l.Base + ")"
 			c.leafFact(st, term, lf)
 			return term
-		})
+		}))
 	}
 	return poison("bad loc")
 }
@@ -327,13 +329,20 @@ func (c *FnCtx) leafFact(st *State, term string, lf leaf) {
 		c.fact(fmt.Sprintf("(<= %s %s)", term, st.alloc))
 	case "len":
 		c.fact(fmt.Sprintf("(<= 0 %s)", term))
-	case "cap":
-		// len <= cap: the len term is the same with role swapped
-		lt := strings.Replace(term, ".cap", ".len", 1)
-		if lt != term {
-			c.fact(fmt.Sprintf("(and (<= %s %s) (<= %s %s))", lt, term, term, pow2(62)))
+	}
+}
+
+// sliceFacts asserts len <= cap <= 2^62 for every slice inside a value read from the heap.
+func (c *FnCtx) sliceFacts(v Val) Val {
+	switch v.K {
+	case KSlice:
+		c.fact(fmt.Sprintf("(and (<= %s %s) (<= %s %s))", v.Fs[2].T, v.Fs[3].T, v.Fs[3].T, pow2(62)))
+	case KStruct, KArray, KTuple:
+		for _, f := range v.Fs {
+			c.sliceFacts(f)
 		}
 	}
+	return v
 }
 
 func (c *FnCtx) writeLoc(st *State, l *Loc, v Val) {
